@@ -6,6 +6,7 @@ package main
 
 import (
 	"bytes"
+	"crypto/ecdsa"
 	"crypto/elliptic"
 	"encoding/json"
 	"fmt"
@@ -15,9 +16,12 @@ import (
 	"sort"
 	"strings"
 
+	"github.com/decred/dcrd/dcrec/secp256k1/v4"
 	mrbase58 "github.com/mr-tron/base58"
+	"github.com/nspcc-dev/neo-go/pkg/config"
 	"github.com/nspcc-dev/neo-go/pkg/core/interop"
 	icrypto "github.com/nspcc-dev/neo-go/pkg/core/interop/crypto"
+	"github.com/nspcc-dev/neo-go/pkg/core/native"
 	"github.com/nspcc-dev/neo-go/pkg/core/transaction"
 	"github.com/nspcc-dev/neo-go/pkg/crypto/hash"
 	"github.com/nspcc-dev/neo-go/pkg/crypto/keys"
@@ -31,6 +35,7 @@ import (
 	"github.com/nspcc-dev/neo-go/pkg/vm"
 	"github.com/nspcc-dev/neo-go/pkg/vm/emit"
 	"github.com/nspcc-dev/neo-go/pkg/vm/opcode"
+	"github.com/nspcc-dev/neo-go/pkg/vm/stackitem"
 )
 
 type c18xInput struct {
@@ -255,6 +260,8 @@ func c18xRunInner(co *caseOut, kind string, in c18xInput) {
 		c18Multisig(co, in)
 	case "ecdsa":
 		c18Ecdsa(co, in)
+	case "keycurve":
+		c18KeyCurve(co, in)
 	default:
 		panic("unknown kind " + kind)
 	}
@@ -724,8 +731,191 @@ func c18xGenerate(co *caseOut, r *rng, cf *commonFlags) {
 		c18xRun(co, "multisig", c18xInput{Keys: []int{0, 1, -1, 2, 3}, Sigs: []int{0, 1, 2, 3}, Seed: uint64(200 + i)})
 	}
 	c18xRun(co, "multisig", c18xInput{Keys: []int{0, 1}, Sigs: []int{0, 1, 1}, Seed: 1})
+	// public-key decoding per curve, through the LRU cache keyed by the encoded bytes, in every order
+	for i := 0; i < n/10+6; i++ {
+		c18xRun(co, "keycurve", c18xInput{Seed: cf.seed*104729 + uint64(i), Mode: i % 4})
+	}
 	// ECDSA / WIF / NEP-2 / key laws
 	for i := 0; i < n/4+6; i++ {
 		c18xRun(co, "ecdsa", c18xInput{Seed: cf.seed*7919 + uint64(i)})
 	}
+}
+
+// ---- public keys of both curves: decoding is per requested curve and must not depend on what was decoded before ----
+
+var c18Curves = []struct {
+	name  string
+	curve elliptic.Curve
+	id    int64 // CryptoLib NamedCurveHash with SHA-256
+}{{"secp256r1", elliptic.P256(), 23}, {"secp256k1", secp256k1.S256(), 22}}
+
+// deterministic private key on either curve (keys.NewSecp256k1PrivateKey draws from crypto/rand)
+func c18PrivOn(ci int, scalar []byte) *keys.PrivateKey {
+	c := c18Curves[ci].curve
+	x, y := c.ScalarBaseMult(scalar) // nolint: staticcheck
+	return &keys.PrivateKey{PrivateKey: ecdsa.PrivateKey{PublicKey: ecdsa.PublicKey{Curve: c, X: x, Y: y}, D: new(big.Int).SetBytes(scalar)}}
+}
+
+// reference decoding: a fresh PublicKey with the curve set, DecodeBytes (no cache involved)
+func c18RefDecode(b []byte, ci int) *keys.PublicKey {
+	p := &keys.PublicKey{Curve: c18Curves[ci].curve}
+	if p.DecodeBytes(b) != nil {
+		return nil
+	}
+	return p
+}
+
+var c18VerifyNative func(args []stackitem.Item) stackitem.Item
+
+func c18NativeVerify(msg, pub, sig []byte, curveID int64) (res string) {
+	if c18VerifyNative == nil {
+		latest := config.HFLatestKnown
+		for _, n := range native.NewDefaultContracts(config.ProtocolConfiguration{}) {
+			md := n.Metadata()
+			if md.Name != "CryptoLib" {
+				continue
+			}
+			for _, m := range md.HFSpecificContractMD(&latest).Methods {
+				if m.MD.Name == "verifyWithECDsa" {
+					f := m.Func
+					c18VerifyNative = func(args []stackitem.Item) stackitem.Item { return f(nil, args) }
+				}
+			}
+		}
+		if c18VerifyNative == nil {
+			panic("CryptoLib.verifyWithECDsa not found")
+		}
+	}
+	defer func() {
+		if e := recover(); e != nil {
+			res = "fault"
+		}
+	}()
+	it := c18VerifyNative([]stackitem.Item{stackitem.NewByteArray(msg), stackitem.NewByteArray(pub), stackitem.NewByteArray(sig), stackitem.Make(curveID)})
+	b, _ := it.TryBool()
+	return fmt.Sprint(b)
+}
+
+func c18KeyCurve(co *caseOut, in c18xInput) {
+	r := newRng(in.Seed)
+	bad := func(note string, impl any) { co.violation("keycurve", note, in, impl) }
+	// material: a key of each curve, and for each curve an encoding that is ALSO a valid key on the other curve
+	type enc struct {
+		b      []byte
+		origin int // curve of the key that was encoded
+		key    *keys.PrivateKey
+	}
+	var encs []enc
+	for ci := range c18Curves {
+		encs = append(encs, enc{origin: ci, key: c18PrivOn(ci, r.bytes(32))})
+		for tries := 0; tries < 64; tries++ { // about half of all compressed encodings are points of both curves
+			k := c18PrivOn(ci, r.bytes(32))
+			if c18RefDecode(k.PublicKey().Bytes(), 1-ci) != nil {
+				encs = append(encs, enc{origin: ci, key: k})
+				break
+			}
+		}
+	}
+	for i := range encs {
+		encs[i].b = encs[i].key.PublicKey().Bytes()
+		if r.chance(25) {
+			encs[i].b = encs[i].key.PublicKey().UncompressedBytes() // valid on its own curve only
+		}
+	}
+	both := 0
+	decodeCheck := func(e enc, ci int, when string) {
+		ref := c18RefDecode(e.b, ci)
+		got, err := keys.NewPublicKeyFromBytes(e.b, c18Curves[ci].curve)
+		ctx := map[string]any{"encoding": hx(e.b), "encoded_on": c18Curves[e.origin].name, "requested": c18Curves[ci].name, "when": when}
+		if (ref == nil) != (err != nil) {
+			ctx["err"] = fmt.Sprint(err)
+			bad("NewPublicKeyFromBytes accepts/rejects differently from a fresh DecodeBytes on the requested curve", ctx)
+			return
+		}
+		if ref == nil {
+			return
+		}
+		if got.Curve == nil || got.Curve.Params().Name != c18Curves[ci].curve.Params().Name {
+			ctx["got_curve"] = got.Curve.Params().Name
+			bad("decoded key is on another curve than the one requested (decoding depends on what was decoded before)", ctx)
+			return
+		}
+		if got.X.Cmp(ref.X) != 0 || got.Y.Cmp(ref.Y) != 0 || !c18Curves[ci].curve.IsOnCurve(got.X, got.Y) { // nolint: staticcheck
+			bad("decoded point differs from the point of the requested curve", ctx)
+			return
+		}
+		if ci == e.origin && (got.X.Cmp(e.key.PublicKey().X) != 0 || got.Y.Cmp(e.key.PublicKey().Y) != 0) {
+			bad("decode . encode is not the identity on the key's own curve", ctx)
+		}
+		if len(e.b) == 33 && !bytes.Equal(got.Bytes(), e.b) {
+			bad("re-encoding of the decoded key differs from the input", ctx)
+		}
+	}
+	cycle := func() { // push everything out of the 1024-entry cache
+		for i := 0; i < 1100; i++ {
+			sc := r.bytes(32)
+			k := c18PrivOn(i%2, sc)
+			_, _ = keys.NewPublicKeyFromBytes(k.PublicKey().Bytes(), c18Curves[i%2].curve)
+		}
+	}
+	msg := r.bytes(40)
+	verifyCheck := func(e enc, ci int, when string) {
+		// signature by the key's own private key; expected answer = verification under the reference decoding
+		sig := e.key.SignHash(hash.Sha256(msg))
+		ref := c18RefDecode(e.b, ci)
+		want := "fault"
+		if ref != nil {
+			want = fmt.Sprint(ref.Verify(sig, hash.Sha256(msg).BytesBE()))
+		}
+		if got := c18NativeVerify(msg, e.b, sig, c18Curves[ci].id); got != want {
+			bad("CryptoLib.verifyWithECDsa answers differently depending on what was decoded before",
+				map[string]any{"encoding": hx(e.b), "signed_on": c18Curves[e.origin].name, "curve": c18Curves[ci].name, "got": got, "want": want, "when": when})
+		}
+		if ref != nil && ci == e.origin && want != "true" {
+			bad("a signature does not verify under its own key and curve", hx(e.b))
+		}
+	}
+	for _, e := range encs {
+		if c18RefDecode(e.b, 0) != nil && c18RefDecode(e.b, 1) != nil {
+			both++
+		}
+		a, b := e.origin, 1-e.origin
+		if in.Mode&1 == 1 {
+			a, b = b, a
+		}
+		decodeCheck(e, a, "first")
+		decodeCheck(e, b, "after the other curve")
+		decodeCheck(e, a, "again after the other curve")
+		verifyCheck(e, b, "after decoding on the other curve")
+		verifyCheck(e, a, "after verifying on the other curve")
+		decodeCheck(e, b, "after verification")
+		// PublicKey.DecodeBytes with the curve preset, and the default (nil curve = secp256r1)
+		for ci := range c18Curves {
+			p := &keys.PublicKey{Curve: c18Curves[ci].curve}
+			err := p.DecodeBytes(e.b)
+			if ref := c18RefDecode(e.b, ci); (ref == nil) != (err != nil) || (ref != nil && (p.X.Cmp(ref.X) != 0 || p.Y.Cmp(ref.Y) != 0)) {
+				bad("PublicKey.DecodeBytes is not a function of (bytes, curve)", hx(e.b))
+			}
+		}
+	}
+	if in.Mode&2 == 2 {
+		cycle()
+		for _, e := range encs {
+			decodeCheck(e, 1-e.origin, "after cycling the cache")
+			decodeCheck(e, e.origin, "after cycling the cache, own curve")
+			verifyCheck(e, e.origin, "after cycling the cache")
+		}
+	}
+	// interleaved: all encodings under curve 0, then all under curve 1, then alternating
+	for pass := 0; pass < 3; pass++ {
+		for i, e := range encs {
+			ci := pass
+			if pass == 2 {
+				ci = i % 2
+			}
+			decodeCheck(e, ci, fmt.Sprintf("interleaved pass %d", pass))
+		}
+	}
+	co.hist[fmt.Sprintf("keycurve/both-curves-%d", both)]++
+	co.add("keycurve", fmt.Sprintf("both%d", min(both, 2)), both > 0, in, nil, "CBigEnc 0 []") // direct laws; the term is a placeholder that always agrees
 }
